@@ -15,7 +15,8 @@ virtual loop to quiescence):
   <t>:n                                             enter the held scope object
   <t>:x   <t>:X                                     leave the innermost block normally / by a body exception
   <t>:r:<ty>:<merge>:<val>                          ctx.record(M<ty>(items=(val,)), merge=<merge>)
-  <t>:l:<d|i|w|e>:<0|1>:<fmt>:<args>                ctx.log_<level>(fmt, *args, exception=... if 1)
+  <t>:l:<d|i|w|e>:<0|1>:<fmt>:<args>                ctx.log_<level>(fmt, *args, exception=... if 1); args all of the form
+                                                    k<key>=<arg> = ONE mapping argument {key: arg, ...} (`%(key)s` formats)
   <t>:s   <t>:c                                     ctx.spawn(new task) / asyncio create_task(new task)
   <t>:e                                             task t returns
   <t>:k                                             task t is cancelled from outside (Task.cancel()) while it is suspended in a
@@ -95,13 +96,24 @@ def parse_args(s: str):
     if s == "":
         return ()
     out = []
+    items = {}
     for a in s.split(","):
         if a.startswith("i") and _nat(a[1:]) is not None:
             out.append(int(a[1:]))
         elif a.startswith("s"):
             out.append(dec(a[1:]))
+        elif a.startswith("k") and "=" in a:          # k<key>=i<nat> / k<key>=s<chars>: an item of the single mapping argument
+            key, val = a[1:].split("=", 1)
+            if val.startswith("i") and _nat(val[1:]) is not None:
+                items[key] = int(val[1:])
+            elif val.startswith("s"):
+                items[key] = dec(val[1:])
+            else:
+                return None
         else:
             return None
+    if items:
+        return None if out else (items,)              # never a mixture
     return tuple(out)
 
 
